@@ -76,7 +76,7 @@ def run_tlc(module, cfg, *, env=None, workers=1, timeout=600, xmx="4g", simulate
         else:
             cfgp = cfg if os.path.isabs(cfg) else os.path.join(spec_dir, cfg)
         cp = ":".join([JAR, CM, CLASSES])
-        cmd = ["java", "-XX:+UseParallelGC", "-Xmx" + xmx, "-Xss16m", "-cp", cp,
+        cmd = ["java", "-XX:+UseParallelGC", "-Xmx" + xmx, "-Xss16m", "-Djava.io.tmpdir=" + tmp, "-cp", cp,
                "-Dtlc2.overrides.TLCOverrides=tlc2.overrides.TLCOverrides:iopt.verif.Overrides",
                "tlc2.TLC", "-workers", str(workers), "-metadir", os.path.join(tmp, "meta"),
                "-noGenerateSpecTE", "-config", cfgp]
